@@ -37,7 +37,7 @@ PROPS["C08"] = dict(
           "beads and coordinates a pure function of the compact case; a handful of cases per run."
           " csg_map_chain (executables): own-writer gro trajectories (1-3 frames, orthorhombic / reduced triclinic, optional velocities) "
           "converted by csg_map --no-map to gro|dump|pdb|xyz|dlph and back to gro; positions, velocities and the nine box values must come "
-          "back within the printed precision, frame count kept; non-trivial = >1 frame, triclinic or velocities. Histories: 30 % of the multi-frame round trips close the file after k frames and re-open it with the append option (same or new writer object; gro, pdb, xyz, dump); the mismatch sub's own pdb files close their last model by ENDMDL, END, nothing, or nothing without a final newline."),
+          "back within the printed precision, frame count kept; non-trivial = >1 frame, triclinic or velocities. Histories: 30 % of the multi-frame round trips close the file after k frames and re-open it with the append option (same or new writer object; gro, pdb, xyz, dump); the mismatch sub's own pdb files close their last model by ENDMDL, END, nothing, or nothing without a final newline. 15 % of the dump cases carry 14-15 significant digits per value (lines of 150 and more characters)."),
     assumptions=COMMON_ASSUME + [
         "lammps dump is exercised with orthorhombic/open boxes only (VOTCA's reader rejects the triclinic header, the writer never emits it)",
         "pdb carries no box (PDBWriter::Write emits no CRYST1 record); xyz carries positions and 3 characters of the name only",
